@@ -17,9 +17,6 @@ token list is `treeD d` for a well-formed `d` with exactly these tokens, provide
    – a command with a fixed signature has its arguments as declared: at most `optional`
      bracket groups, then exactly `required` brace groups (this excludes `\def` at the end of
      input, and `\section{a}[b]` – the continuation argument the grammar does not describe);
-   – in the body of a math-mode environment no argument-less command is directly followed by a
-     brace group (the look-ahead of `read_env` reads that group in math mode; `WF` asks for the
-     group to be well-formed there, which the strict parse does not tell);
  * on the tokens: no backslash at the very end (`NoTrailingEscape`); the argument after
    `\begin` / `\end` is `{`, one text token, `}` (`EnvNamesSimple`; reason
    `env-name-several-tokens`); the token after a backslash is its own `strip()`, and `\end{name}`
@@ -28,7 +25,11 @@ token list is `treeD d` for a well-formed `d` with exactly these tokens, provide
 
 Every frame condition of `Gram.WF` – `runOK`, `startOK`, `itemStop`, `noEarly`, the names of
 `\begin`/`\end`, the look-ahead clause – is *implied* by the reader's success under these side
-conditions: the grammar is not stricter than the reader anywhere else.
+conditions: the grammar is not stricter than the reader anywhere else. (The look-ahead clause –
+`\begin{equation}\in{x}\end{equation}`: the group after the argument-less command is first read
+in math mode by the look-ahead of `read_env` – follows from the success of that very look-ahead,
+`Gram.peekCond_of_peek`: math-mode results are non-math-mode results, `readArg_math_nonMath`,
+and math-mode well-formedness implies non-math-mode well-formedness, `Gram.WFs_mle`.)
 
 From source text: `parse_sound`. Payoff: **C16 for all strictly parsing inputs**
 (`C16.reparse_fixed_point_all`): the serialised text re-parses to a tree of the same shape and
@@ -179,11 +180,35 @@ example : repL .nonMath (treeD exList) = true ∧ envNamesShapeB (toksD exList) 
     noTrailingEscapeB (toksD exList) = true := by decide +kernel
 
 /-- The side conditions on the tree bite: `\def` at the end of input parses (no arguments) but
-is not representable; neither is `\in{x}` in the body of `equation`. -/
+is not representable. `\in{x}` in the body of `equation` is (the look-ahead case). -/
 example : repL .nonMath [.cmd [100, 101, 102] [] [] 0] = false := by decide
 example : repL .nonMath [.nenv [101, 113, 117, 97, 116, 105, 111, 110] []
-    [.cmd [105, 110] [] [] 16, .group .brace [.text [120] 20] 19] 0] = false := by decide
+    [.cmd [105, 110] [] [] 16, .group .brace [.text [120] 20] 19] 0] = true := by decide
 example : repL .nonMath [.nenv [97] []
     [.cmd [105, 110] [] [] 9, .group .brace [.text [120] 13] 12] 0] = true := by decide
+
+/-! ### The look-ahead case: `\begin{equation}\in{x}\end{equation}` -/
+
+private def tk (s : Str) (p : Nat) (c : TC) : Tok := ⟨s, p, c⟩
+private def sEquation : Str := [101, 113, 117, 97, 116, 105, 111, 110]
+
+/-- `\begin{equation}\in{x}\end{equation}`: the group `{x}` is first read (and dropped) by the
+look-ahead of `read_env`, in math mode, as an argument of `\in`. -/
+def exEqn : Doc :=
+  [.env (tk [92] 0 .Escape) (tk sBegin 1 .CommandName)
+    ⟨none, tk [123] 6 .GroupBegin, tk sEquation 7 .Text, tk [125] 15 .GroupEnd⟩ [] [] []
+    [.cmd (tk [92] 16 .Escape) (tk [105, 110] 17 .CommandName) [] [] [] [],
+     .group (tk [123] 19 .GroupBegin) [.leaf (tk [120] 20 .Text)] (tk [125] 21 .GroupEnd)]
+    (tk [92] 22 .Escape) (tk sEnd 23 .CommandName)
+    ⟨none, tk [123] 26 .GroupBegin, tk sEquation 27 .Text, tk [125] 35 .GroupEnd⟩]
+
+def srcEqn : Str := [92, 98, 101, 103, 105, 110, 123, 101, 113, 117, 97, 116, 105, 111, 110, 125, 92,
+  105, 110, 123, 120, 125, 92, 101, 110, 100, 123, 101, 113, 117, 97, 116, 105, 111, 110, 125]
+
+example : tokenize srcEqn = some (toksD exEqn) := by rfl
+example : WFD Tables.skipEnvNames exEqn = true := by decide
+/-- all side conditions of `parse_sound_of_checks` hold for it (the tree is representable) -/
+example : repL .nonMath (treeD exEqn) = true ∧ envNamesShapeB (toksD exEqn) = true ∧
+    noTrailingEscapeB (toksD exEqn) = true := by decide +kernel
 
 end TexSoup.C02
